@@ -18,7 +18,7 @@ import trio
 import trio.testing
 
 from . import world as W
-from .core import Quiescent
+from .core import Quiescent, arm_spin_timer
 from .loops import LoopBox
 
 AUTOJUMP = 1e-6
@@ -56,6 +56,7 @@ def _make_clock(world: W.World):
 
     def _autojump() -> None:
         jump = trio.lowlevel.current_statistics().seconds_to_next_deadline
+        arm_spin_timer()
         if 0 < jump < float("inf"):
             w = world
             w.count_seam()
